@@ -104,6 +104,11 @@ func runC11(ctx *h.Ctx) int {
 			// statement poryswitches: AutoVar conditions and switches written directly in a poryswitch case
 			prof.PoryKeys, prof.WPory, prof.WSwitch = []string{"GAME", "LANG"}, 10, 10
 		}
+		if k.Index%3 == 2 {
+			// long if / elif chains whose arms mostly repeat one AutoVar command token for token: every arm that is
+			// reached runs the command again (its result may differ each time), none may be dropped as a duplicate
+			prof.PRepeatAuto, prof.MaxElif, prof.WIf, prof.PAuto, prof.MaxLeaves = 0.7, 3, 30, 0.7, 2
+		}
 		g, prog := genScripts(k, prof, 1)
 		for _, key := range prof.PoryKeys {
 			prog.Switches[key] = []string{"RUBY", "SAPPHIRE", "EMERALD", "1", "OTHER"}[k.R.IntN(5)]
